@@ -137,6 +137,11 @@ def parse_template(path: str):
                     n = int(t.split()[2])
                     body, i = multiline(i)
                     blk["inserts"].append(("afterloop", n, body))
+                elif t.startswith("//@ startloop "):
+                    # proof text placed at the very start of the body of loop ordinal n (after its opening brace)
+                    n = int(t.split()[2])
+                    body, i = multiline(i)
+                    blk["inserts"].append(("startloop", n, body))
                 elif t.startswith("//@ endloop "):
                     # proof text placed at the very end of the body of loop ordinal n (before its closing brace)
                     n = int(t.split()[2])
@@ -283,6 +288,11 @@ def build_item(repo: str, blk: dict, report: dict):
                 raise LostAnchor(f"{key}: loop #{anchor} not found ({len(loops)} loops)")
             close = match_brace(bmask, loops[anchor][1])
             ins.append((close + 1, "\n" + txt + "\n", "proof"))
+            continue
+        if where == "startloop":
+            if anchor >= len(loops):
+                raise LostAnchor(f"{key}: loop #{anchor} not found ({len(loops)} loops)")
+            ins.append((loops[anchor][1] + 1, "\n" + txt + "\n", "proof"))
             continue
         if where == "endloop":
             if anchor >= len(loops):
